@@ -482,6 +482,16 @@ def plan(ctx, pid):
                 g.engines = ['minisat', 'cadical']
                 g.stage1 = 30
             groups.append(g)
+    if ctx.tier == 'thorough':
+        # "regardless of host byte order": every typed accessor again under a big-endian host model
+        import copy
+        extra = []
+        for g in groups:
+            if g.harness == HT:
+                g2 = copy.deepcopy(g)
+                g2.big_endian = True
+                extra.append(g2)
+        groups += extra
     # the templates themselves with an explicit (symbolic) size argument
     for fn in ('tmpl_get', 'tmpl_pget'):
         groups.append(Group(name='StringReader.%s<T>(size)' % fn[5:], harness=HS, entry='h_' + fn, function='StringReader::%s<T> with explicit size' % fn[5:],
